@@ -139,6 +139,19 @@ pub fn probe() {
                 }
             }
         }
+        // deletions: does the AllBinary scan request the blobs of deleted rows?
+        for (name, pat, del) in [("NULL second, first row of each file deleted", vec![2u8, 0, 2, 2], "v % 4 = 0"), ("NULL first, that row deleted", vec![0u8, 2, 2, 2], "v % 4 = 0"), ("NULL third, rows 0,1 deleted", vec![2u8, 2, 0, 2], "v % 4 < 2"), ("empty second, that row deleted", vec![2u8, 1, 2, 2], "v % 4 = 1")] {
+            let dir = tempfile::tempdir().unwrap();
+            let uri = dir.path().join("p.lance").to_str().unwrap().to_string();
+            let params = WriteParams { max_rows_per_file: 4, data_storage_version: Some(LanceFileVersion::V2_0), ..Default::default() };
+            let mut ds = Dataset::write(RecordBatchIterator::new(vec![Ok(mk_batch(&pat, 0, 8))], schema()), &uri, Some(params)).await.unwrap();
+            ds.delete(del).await.unwrap();
+            let rows = scan_rows(&ds).await.unwrap();
+            let bad: Vec<String> = rows.iter().filter(|r| r.2.clone().unwrap_or_default() != blob_bytes(&pat, r.0).unwrap_or_default()).map(|r| format!("v={} scan={} written={}", r.0, show(&r.2), show(&blob_bytes(&pat, r.0)))).collect();
+            println!("2.0 [{name}] delete {del}: AllBinary scan wrong bytes in {} of {} rows {:?}", bad.len(), rows.len(), bad);
+        }
         let _ = WriteMode::Append;
     });
 }
+
+pub fn run(_args: &hxlib::util::Args, _sink: &mut hxlib::util::Sink, _rng: &mut hxlib::util::Rng) {}
